@@ -83,6 +83,20 @@ def showRoll (h : H) (n : Num) (r : Option Nat) : Num × String :=
     let (n3, w) := showWeak n2 (h.obj r).weak
     (n3, s!"r{c}\{g={g};w={w};c={cacheFlag h r}}")
 
+/-- explicit values of a unit that are callables holding references (entries 43 `duration`, 44 `pacing`): the
+callable and what it is bound to -/
+def showBound (h : H) (n : Num) (u : Nat) : Num × String :=
+  let r := [43, 44].foldl (fun (a : Num × List String) f =>
+    match getF h u f with
+    | some c =>
+      if (h.obj c).kind = .closure then
+        let (n1, cc) := clsOf a.1 c
+        let (n2, t) := showWeak n1 (getF h c fBIND)
+        (n2, a.2 ++ [s!"f{f}=k{cc}({t})"])
+      else a
+    | none => a) (n, [])
+  (r.1, if r.2.isEmpty then "-" else ",".intercalate r.2)
+
 def showUnit : Nat → H → Num → Nat → Num × String
   | 0, _, n, u => let (n1, c) := clsOf n u; (n1, s!"u{c}")
   | fuel + 1, h, n, u =>
@@ -101,7 +115,8 @@ def showUnit : Nat → H → Num → Nat → Num × String
           let (x, str) := showUnit fuel h acc.1 c
           (x, acc.2 ++ [str])) (b, [])
         (r.1, s!"l{lc}(w={lw})[{",".intercalate r.2}]")
-    (n6, s!"u{c}:{(h.obj u).tag}\{w={w},in={i},out={o},roll={r},sub={sub}}")
+    let (n7, cb) := showBound h n6 u
+    (n7, s!"u{c}:{(h.obj u).tag}\{w={w},in={i},out={o},roll={r},sub={sub},cb={cb}}")
 
 def showSlot (h : H) (n : Num) (o : Nat) : Num × String :=
   match (h.obj o).kind with
@@ -121,6 +136,7 @@ def showSlot (h : H) (n : Num) (o : Nat) : Num × String :=
   | .outProfile => showProf h n o
   | .unit => showUnit 6 h n o
   | .subList => let (n1, c) := clsOf n o; (n1, s!"l{c}")
+  | .closure => let (n1, c) := clsOf n o; (n1, s!"k{c}")
 
 def dump (d : DS) : String :=
   let r := d.slots.foldl (fun (acc : Num × List String) o =>
@@ -184,6 +200,19 @@ def unitTree : Nat → H → Nat → List Nat
 
 def boolOf (str : String) : Bool := str = "1"
 
+/-- driver only: re-tabulate the heap function in an array (the model's heap is a chain of function updates,
+one closure per write; looking an object up would otherwise cost time proportional to the number of writes so far) -/
+def compact (h : H) : H :=
+  let arr : Array Obj := Array.ofFn (n := h.next) (fun i => h.obj i.val)
+  { next := h.next, obj := fun i => arr.getD i {} }
+
+/-- `Heap.velRounds` with the heap re-tabulated between the rounds (speed only, as between two lines) -/
+def velRoundsD : Nat → S → Nat → Nat → S
+  | 0, s, _, _ => s
+  | n + 1, s, u, p =>
+    let s1 := velRound P s u p
+    velRoundsD n { s1 with h := compact s1.h } u p
+
 def handle (d : DS) (line : String) : DS × String :=
   match toks line with
   | ["reset"] => ({}, "ok")
@@ -235,6 +264,22 @@ def handle (d : DS) (line : String) : DS × String :=
       let w := writtenNames d s1
       ({ d with s := { s1 with its := [] } }.reg r, s!"{w} | left={s1.its.length}")
     | _, _, _ => (d, "bad-op")
+  | ["solvev", u, p, n, its] =>
+    -- `seq.solve_velocities_forward / backward(profile, …)`: `n` rounds (observed on the implementation)
+    match nat? u, nat? p, nat? n, natList? its with
+    | some u, some p, some n, some its =>
+      let s0 : S := { d.s with its := its }
+      let s1 := velRoundsD n (velRead (subItems s0.h (d.slot u)) s0) (d.slot u) (d.slot p)   -- = `solveVel P n s0 u p`
+      let w := writtenNames d s1
+      ({ d with s := { s1 with its := [] } }, s!"{w} | left={s1.its.length}")
+    | _, _, _, _ => (d, "bad-op")
+  | ["bind", u, f, t] =>
+    -- the caller sets an explicit value of unit `u` to a callable bound to unit `t`
+    match nat? u, nat? f, nat? t with
+    | some u, some f, some t =>
+      let s1 := bindCallable d.s (d.slot u) f (d.slot t)
+      ({ d with s := s1 }, writtenNames d s1)
+    | _, _, _ => (d, "bad-op")
   | ["deepcopy", u] =>
     match nat? u with
     | some u =>
@@ -285,12 +330,6 @@ def handle (d : DS) (line : String) : DS × String :=
       | _, _ => (d, "none")
     | none => (d, "bad-op")
   | _ => (d, "bad-op")
-
-/-- driver only: re-tabulate the heap function in an array (the model's heap is a chain of function updates,
-one closure per write; looking an object up would otherwise cost time proportional to the number of writes so far) -/
-def compact (h : H) : H :=
-  let arr : Array Obj := Array.ofFn (n := h.next) (fun i => h.obj i.val)
-  { next := h.next, obj := fun i => arr.getD i {} }
 
 partial def loop (hIn : IO.FS.Stream) (d : DS) : IO Unit := do
   let line ← hIn.getLine
